@@ -7,7 +7,12 @@ import (
 // Independent frame builders (RFC layouts). They never call into the repository.
 
 func put16(b []byte, v uint16) { b[0] = byte(v >> 8); b[1] = byte(v) }
-func put32(b []byte, v uint32) { b[0] = byte(v >> 24); b[1] = byte(v >> 16); b[2] = byte(v >> 8); b[3] = byte(v) }
+func put32(b []byte, v uint32) {
+	b[0] = byte(v >> 24)
+	b[1] = byte(v >> 16)
+	b[2] = byte(v >> 8)
+	b[3] = byte(v)
+}
 
 // Eth builds an Ethernet II frame.
 func Eth(dst, src []byte, ethertype uint16, payload []byte) []byte {
